@@ -136,9 +136,53 @@ RECIPES = {
         runs=[dict(cmd="run", gen="batch:30,big:4", policy="always_flush",
                    opts={"crash": "process", "tears": "aimed", "cont": True, "max-points": "800"},
                    opts_thorough={"crash": "process", "tears": "all", "cont": True, "max-points": "8000"},
-                   thorough_factor=6)],
+                   thorough_factor=6),
+              dict(cmd="damage", gen="batch:24,big:4", policy="always_flush",
+                   opts={"classes": "payload,crc,hdr"},
+                   opts_thorough={"classes": "payload,crc,hdr", "thorough": True}, thorough_factor=6)],
         rule="every batch ever appended is recovered entirely, not at all, or as an upper segment, at every crash point "
              "and after the continuation's restart; non-trivial = crash points strictly inside a call",
         nontrivial_stat="crash_incall_points",
+    ),
+    "C08": dict(
+        level="fault_enumeration",
+        monitors={"C08"},
+        mc=[],
+        runs=[dict(cmd="damage", gen="small:20,batch:8,gc-heavy:6,big:3,names:3", policy="always_flush",
+                   opts={"classes": "payload,crc,hdr,noise", "noise": "300"},
+                   opts_thorough={"classes": "payload,crc,hdr,noise", "noise": "1500", "thorough": True}, thorough_factor=8),
+              dict(cmd="damage", gen="embed:12", policy="always_flush", opts={"classes": "embed,hdr"})],
+        rule="closed images of recorded runs x in-place damage aimed with the frame table (every header field of every "
+             "frame, payload first/middle/last byte, CRC bytes, garbage / zero ranges, block boundaries) + random noise, "
+             "1-3 operations; every recovered record must equal a record of some recorded append of the same queue, "
+             "positions strictly increasing; non-trivial = damage cases opened",
+        nontrivial_stat="damage_cases",
+    ),
+    "C09": dict(
+        level="fault_enumeration",
+        monitors={"C09"},
+        mc=[],
+        runs=[dict(cmd="damage", gen="small:24,recreate:16,batch:8,gc-heavy:6,big:3", policy="always_flush",
+                   opts={"classes": "payload,crc", "cont": True},
+                   opts_thorough={"classes": "payload,crc", "cont": True, "thorough": True}, thorough_factor=10)],
+        rule="every frame of every image x {bit flip at first/middle/last payload byte, garbage payload, zero payload, "
+             "bit flip in each CRC byte, garbage CRC}: open succeeds and every retained record of every other entry is "
+             "recovered; then one append per queue, a truncate and a clean restart validated from the recovered state; "
+             "non-trivial = damage cases opened",
+        nontrivial_stat="damage_cases",
+    ),
+    "C10": dict(
+        level="exploration",
+        monitors={"C10"},
+        mc=[],
+        runs=[dict(cmd="damage", gen="small:16,batch:6,gc-heavy:6,big:3,names:2", policy="always_flush",
+                   opts={"classes": "payload,crc,hdr,noise,struct", "noise": "200", "struct": "200"},
+                   opts_thorough={"classes": "payload,crc,hdr,noise,struct", "noise": "2000", "struct": "2000", "thorough": True},
+                   thorough_factor=8)],
+        rule="full damage alphabet (overwritten, zeroed, truncated, removed, duplicated, transposed blocks and files, "
+             "short / empty files, stray files, sub-directories, symlinks, random blocks, blocks of valid-looking "
+             "headers): open under catch_unwind, a 10 s deadline and a counting allocator (peak <= 8 x image + 64 MiB); "
+             "all read accessors called on a returned log; non-trivial = damage cases opened",
+        nontrivial_stat="damage_cases",
     ),
 }
